@@ -41,7 +41,10 @@ func genC11(r *rng, thorough bool) {
 		n = 4000
 	}
 	gl := []string{"a", "b", "a,b", "b,a", "x", "nosuch", "a,nosuch"}
-	emit := func(argv []string, rs []record) { gen("verbs " + joinFlags(argv) + " " + encodeRecords(rs)) }
+	emit := func(argv []string, rs []record) {
+		gen("verbs " + joinFlags(argv) + " " + encodeRecords(rs))
+		gen("verbsx " + joinFlags(argv) + " " + encodeRecords(rs))
+	}
 	for i := 0; i < n; i++ {
 		rs := verbStream(r, 12)
 		N := len(rs)
